@@ -10,7 +10,9 @@ import (
 	"testing"
 	"unicode/utf8"
 
+	"github.com/tailscale/setec/audit"
 	"github.com/tailscale/setec/client/setec"
+	"github.com/tailscale/setec/db"
 	"github.com/tailscale/setec/types/api"
 	"pgregory.net/rapid"
 	"verifharness/dbx"
@@ -25,6 +27,10 @@ type CondCase struct {
 	Rules []model.Rule `json:"rules"` // caller 1
 	HTTP  bool         `json:"http"`
 	Text  bool         `json:"text"` // secrets file uses the TextValue spelling where possible
+	// indices of conditional gets during which the audit device fails. Such a get may fail, but it
+	// may answer "not changed" only if the active version IS V (an unchanged poll writes no record and
+	// so does not depend on the device). The server is restarted afterwards.
+	FailAudit []int `json:"fail_audit,omitempty"`
 }
 
 var c09Names = []string{"a", "a", "a", "b", "dev/c", "zz-absent"}
@@ -49,6 +55,9 @@ func genCondCase(rt *rapid.T) CondCase {
 	if rapid.Bool().Draw(rt, "prefix") {
 		// start from a secret that already has two versions with the newer one active
 		c.Ops = append([]dbx.Op{{Kind: "put", Name: "a", Val: []byte("x")}, {Kind: "put", Name: "a", Val: []byte("y")}, {Kind: "activate", Name: "a", VSel: "latest"}}, c.Ops...)
+	}
+	if rapid.IntRange(0, 3).Draw(rt, "withauditfail") == 0 {
+		c.FailAudit = rapid.SliceOfN(rapid.IntRange(0, len(c.Ops)), 1, 4).Draw(rt, "failaudit")
 	}
 	return c
 }
@@ -87,22 +96,33 @@ func runC09(t *testing.T, c CondCase) (*h.Violation, h.Info) {
 	var info h.Info
 	dir := caseDir(t)
 	defer os.RemoveAll(dir)
-	d, err := dbx.OpenDiscard(filepath.Join(dir, "db"), dbx.DummyKey())
-	if err != nil {
-		return h.V("harness", "open: %v", err), info
-	}
 	su := dbx.Super()
 	low := dbx.Restricted(1, c.Rules)
 	callers := []dbx.CallerM{su, low}
-	var tgt dbx.Target = dbx.DBTarget{D: d}
+	var tgt dbx.Target
+	var sink *flakyAudit
 	tr := dbx.NewTracker()
-	if c.HTTP {
-		ht, err := dbx.NewHTTP(d, callers)
+	tr.Wire = c.HTTP
+	start := func() *h.Violation {
+		sink = &flakyAudit{}
+		d, err := db.Open(filepath.Join(dir, "db"), dbx.DummyKey(), audit.New(sink))
 		if err != nil {
-			return h.V("harness", "server: %v", err), info
+			return h.V("harness", "open: %v", err)
 		}
-		tgt = ht
-		tr.Wire = true
+		tgt = dbx.DBTarget{D: d}
+		if c.HTTP {
+			ht, err := dbx.NewHTTP(d, callers)
+			if err != nil {
+				return h.V("harness", "server: %v", err)
+			}
+			tgt = ht
+		}
+		return nil
+	}
+	if v := start(); v != nil {
+		return v, info
+	}
+	if c.HTTP {
 		info.Class("path-http+client")
 	} else {
 		info.Class("path-db")
@@ -132,6 +152,28 @@ func runC09(t *testing.T, c CondCase) (*h.Violation, h.Info) {
 		}
 		before := tr.M.String()
 		want := tr.Expect(caller.Rules, op, ver)
+		auditFails := false
+		for _, f := range c.FailAudit {
+			if f == i && op.Kind == "cond" {
+				auditFails = true
+			}
+		}
+		if auditFails {
+			sink.fail = true
+			got := tgt.Do(caller, op, ver)
+			sink.fail = false
+			info.Class("conditional-get-with-a-failing-audit-device")
+			if (got.Class == model.NotChanged) != (want.Class == model.NotChanged) {
+				return h.V("not-modified-iff-active-equals-V", "step %d %s (V=%d) in state %s while the audit device fails: answered %s; without the fault the answer is %s - a fault may turn the answer into an error, never into (or away from) 'not changed'", i, op, ver, before, got, want), info
+			}
+			if got.HasVal && want.Class == model.OK && (got.Ver != want.Ver || !bytes.Equal(got.Val, want.Val)) {
+				return h.V("returns-active-version-with-its-bytes", "step %d %s (V=%d) while the audit device fails: %s, want %s", i, op, ver, got, want), info
+			}
+			if v := start(); v != nil { // the audit writer does not recover: restart the server
+				return v, info
+			}
+			continue
+		}
 		got := tgt.Do(caller, op, ver)
 		if diff := dbx.Compare(got, want); diff != "" {
 			clause := "result-equals-model"
@@ -187,10 +229,10 @@ func runC09(t *testing.T, c CondCase) (*h.Violation, h.Info) {
 
 var c09 = &h.Campaign[CondCase]{
 	Prop: "C09", Sub: "cond",
-	Rule: "rapid: histories (1-30 calls) of put/activate/delete-version/delete by a superuser interleaved with conditional gets carrying V in {0, active, latest, latest+1, existing[i], deleted[i], 2^32-1, absolute} by an allowed or a partially allowed caller, through db.DB or HTTP handlers + setec.Client; at every conditional get the same question is also put to a FileClient built from a secrets file rendered from the model's active set (Value or TextValue spelling) plus two hand-maintained entries without a usable version number, for which GetIfChanged(name, 0) must agree with Get(name); non-trivial = a conditional get on an existing, permitted secret after an activation back to an older version, or with V naming a deleted/never-existing version; distinct by scenario",
+	Rule:  "rapid: histories (1-30 calls) of put/activate/delete-version/delete by a superuser interleaved with conditional gets carrying V in {0, active, latest, latest+1, existing[i], deleted[i], 2^32-1, absolute} by an allowed or a partially allowed caller, through db.DB or HTTP handlers + setec.Client; in one case of four the audit device fails during some conditional gets (the answer may become an error, never switch to or from not-changed; the server is restarted afterwards); at every conditional get the same question is also put to a FileClient built from a secrets file rendered from the model's active set (Value or TextValue spelling) plus two hand-maintained entries without a usable version number, for which GetIfChanged(name, 0) must agree with Get(name); non-trivial = a conditional get on an existing, permitted secret after an activation back to an older version, or with V naming a deleted/never-existing version; distinct by scenario",
 	Quick: 10000, Thorough: 1500000,
-	Gen:   genCondCase,
-	Run:   runC09,
+	Gen: genCondCase,
+	Run: runC09,
 }
 
 func init() { c09.Register() }
